@@ -252,15 +252,14 @@ impl Property for C13Prop {
         }
         let mut brackets: Vec<Bracket> = Vec::new();
         let mut dropped_by_filter: Vec<u64> = Vec::new();
+        let mut received_ids: Vec<u64> = Vec::new();
         let mut last_recv: Option<u64> = None;
         let mut cur: Option<Bracket> = None;
         let mut running_cleared_at: Option<u64> = None;
         for r in &slog {
             match &r.kind {
                 RecKind::Recv { chan: c, ev_id } if *c == chan => {
-                    if let Some(prev) = last_recv.take() {
-                        dropped_by_filter.push(prev);
-                    }
+                    received_ids.push(*ev_id);
                     last_recv = Some(*ev_id);
                 }
                 RecKind::ExtRecv { ev } => {
@@ -270,7 +269,12 @@ impl Property for C13Prop {
                         vio.push(viol("C13", "C13.overlap", format!("external event '{}' received before the macrostep of '{}' reached its idle point", ev.name, b.name), "ext-in-bracket".into()));
                         brackets.push(b);
                     }
-                    cur = Some(Bracket { ev_id: last_recv.take(), name: ev.name.clone(), start_seq: r.seq, ..Default::default() });
+                    // identity: event names are unique per send in this workload; adjacency (the Recv right before)
+                    // is only the fallback for ping / cancel
+                    let by_name: Vec<u64> = sends.iter().filter(|s| ev_name(s.3) == ev.name).map(|s| s.2).collect();
+                    let id = if by_name.len() == 1 { Some(by_name[0]) } else { last_recv };
+                    last_recv = None;
+                    cur = Some(Bracket { ev_id: id, name: ev.name.clone(), start_seq: r.seq, ..Default::default() });
                     if ev.name == CANCEL && running_cleared_at.is_none() {
                         running_cleared_at = Some(r.seq);
                     }
@@ -318,6 +322,14 @@ impl Property for C13Prop {
         // --- per event: processed exactly once
         let mut processed: BTreeMap<String, usize> = BTreeMap::new();
         let mut bracket_of: BTreeMap<u64, usize> = BTreeMap::new();
+        {
+            let handed: BTreeSet<u64> = brackets.iter().filter_map(|b| b.ev_id).collect();
+            for id in &received_ids {
+                if !handed.contains(id) {
+                    dropped_by_filter.push(*id);
+                }
+            }
+        }
         for (i, b) in brackets.iter().enumerate() {
             if let Some(id) = b.ev_id {
                 bracket_of.insert(id, i);
@@ -352,7 +364,7 @@ impl Property for C13Prop {
                 }
                 continue;
             }
-            if dropped_by_filter.contains(ev_id) {
+            if dropped_by_filter.contains(ev_id) && !stopped {
                 vio.push(viol("C13", "C13.lost", format!("event '{}' (#{}) was dequeued and dropped without being processed", name, ev_id), "dropped-after-dequeue".into()));
                 continue;
             }
@@ -378,21 +390,29 @@ impl Property for C13Prop {
 
         // --- sender order: per sending task, received events are a prefix of its sends, in order
         for (task, list) in &per_sender {
-            let mut last_recv_seq = 0u64;
-            let mut gap = false;
+            let mut last_seq = 0u64;
+            let mut gap: Option<String> = None;
             for (ev_id, name) in list {
                 verdict.evaluations += 1;
-                match recvs.get(ev_id).and_then(|v| v.first()) {
-                    Some(rs) => {
-                        if gap {
-                            vio.push(viol("C13", "C13.sender-order", format!("task {}: '{}' was dequeued although an earlier event of the same sender was not", task, name), "prefix".into()));
+                if name == CANCEL {
+                    continue;
+                }
+                // position at which the interpreter took the event (processing order)
+                match bracket_of.get(ev_id).map(|bi| brackets[*bi].start_seq) {
+                    Some(ps) => {
+                        if let Some(g) = &gap {
+                            vio.push(viol("C13", "C13.sender-order", format!("task {}: '{}' was processed although the earlier event '{}' of the same sender was not", task, name, g), "prefix".into()));
                         }
-                        if *rs < last_recv_seq {
-                            vio.push(viol("C13", "C13.sender-order", format!("task {}: '{}' was dequeued before an earlier event of the same sender", task, name), "order".into()));
+                        if ps < last_seq {
+                            vio.push(viol("C13", "C13.sender-order", format!("task {}: '{}' was processed before an earlier event of the same sender", task, name), "order".into()));
                         }
-                        last_recv_seq = *rs;
+                        last_seq = ps;
                     }
-                    None => gap = true,
+                    None => {
+                        if gap.is_none() {
+                            gap = Some(name.clone());
+                        }
+                    }
                 }
             }
         }
